@@ -192,6 +192,11 @@ def run(c, chk):
     else:
         chk.ok('R5.4', 'list layout', 'no path of the per-option printer writes the comment marker for a list option')
 
+    # ---- R5.5: the empty list the printer writes ("name = {}") reads back as an empty list ----------------
+    chk.rule('R5.5', 'the reader recognises "name = {}" as empty wherever it stands: its element counter restarts at every list assignment and counts every element')
+    from . import c01
+    c01.element_counter(c, chk, pm.ParserModel(c), None, 'R5.5')
+
     # ---- R5.3 ---------------------------------------------------------------------------------
     cw = None
     for p in ex2.explore(opf):
